@@ -29,7 +29,7 @@ Extraction "model.ml"
   rc_ni rc_infos4_dec rc_infos6_dec rc_gen rc_msg rc_addrs4_unb rc_addrs6_unb rc_infos4_unb rc_infos6_unb rc_hashes_unb rc_any_of_bytes
   RunLookups.rq_outcomes RunLookups.rq_accepts RunLookups.rq_mk_scn
   RunLookups.rl_init RunLookups.rl_event RunLookups.rl_finish RunLookups.rl_mk_cfg RunLookups.rl_mk_reply
-  RunApi.ra_mk_ent RunApi.ra_counts RunApi.ra_accept RunApi.ra_why RunApi.ra_run RunApi.ra_observe RunApi.ra_mk_peer RunApi.ra_store_get RunApi.ra_values RunApi.ra_na_ip RunApi.ra_na_port
+  RunApi.ra_mk_ent RunApi.ra_counts RunApi.ra_accept RunApi.ra_why RunApi.ra_accept_s RunApi.ra_why_s RunApi.ra_run RunApi.ra_observe RunApi.ra_mk_peer RunApi.ra_store_get RunApi.ra_values RunApi.ra_na_ip RunApi.ra_na_port
   RunLookups.rl_view_sends RunLookups.rl_view_peers RunLookups.rl_view_result RunLookups.rl_view_flags RunLookups.rl_view_nq RunLookups.rl_view_stopping RunLookups.rl_cfg_api
   RunLookupsSends.rls_take
   RunLookupsClosest.rlc_exact RunLookupsClosest.rlc_view_closest.
